@@ -242,6 +242,8 @@ def generate(rng, tier):
         for f in sorted(os.listdir(cdir)):
             if f.endswith(".json"):
                 c = json.load(open(os.path.join(cdir, f)))
+                if "line" in c:
+                    continue                     # leaf lines: see leaf_lines
                 c["origin"] = "corpus"
                 cases.append(c)
 
@@ -294,7 +296,7 @@ def generate(rng, tier):
                 add(dict(kind="points", n=n, keys=keys, thr=thr, dim=dim, mod=rng.choice(MODULI), sq=1, points=P,
                          forms=["points", "lower", "upper", "full", "sparse", "sparsector"], shuffle=rng.randrange(1, 10**6)), "points")
     # ---- sparse inputs, few edges, large dim_max: every encoding
-    nsp = 240 if thorough else 45
+    nsp = 300 if thorough else 90
     for t in range(nsp):
         want = [64, 128, 129][t % 3]
         mod = rng.choice(MODULI)
@@ -352,6 +354,13 @@ def generate(rng, tier):
 def leaf_lines(rng, tier):
     thorough = tier == "thorough"
     L = []
+    cdir = os.path.join(core.ROOT, "corpus", "C11")
+    if os.path.isdir(cdir):
+        for f in sorted(os.listdir(cdir)):
+            if f.endswith(".json"):
+                c = json.load(open(os.path.join(cdir, f)))
+                if "line" in c:
+                    L.append(c["line"])
     for n in range(1, 41 if thorough else 25):
         L.append("CM lower %d" % n)
         L.append("CM upper %d" % n)
@@ -599,7 +608,7 @@ def check(ctx, replay=None):
         for _ in lst:
             res.violation(kind, what, strip(c) if "line" not in c else c, expected=exp, observed=obs)
     # the portable 128-bit integer (uint128.h): same inputs, the sparse cases that use 128 bits
-    if not replay:
+    if not replay and not os.environ.get("C11_SKIP_FAKE128"):
         try:
             drv2 = ctx.build_harness("c11_drv.cpp", tag="fake128", flags=["-DGUDHI_FORCE_FAKE_UINT128"])
             sub = [c for c in cases if c["kind"] == "sparse" and py_dispatch(c["n"], c["dim"], c["mod"]) != 64][: (60 if ctx.tier == "thorough" else 16)]
